@@ -536,3 +536,125 @@ Section Soundness.
       now rewrite xorb_false_l in E.
   Qed.
 End Soundness.
+
+(** ** sector layout of the 2k-bit logical effect (C04) *)
+Lemma logical_errors_length c e : length (logical_errors c e) = (length (lgz c) + length (lgx c))%nat.
+Proof. unfold logical_errors. now rewrite app_length, !map_length. Qed.
+
+Lemma logical_errors_nth_x c e j : (j < length (lgz c))%nat ->
+  nth j (logical_errors c e) false = sp (nth j (lgz c) bzero) e.
+Proof.
+  intros Hj. unfold logical_errors. rewrite app_nth1 by now rewrite map_length.
+  rewrite (nth_indep _ false (sp bzero e)) by now rewrite map_length.
+  apply (map_nth (fun l => sp l e)).
+Qed.
+
+Lemma logical_errors_nth_z c e j : (j < length (lgx c))%nat ->
+  nth (length (lgz c) + j) (logical_errors c e) false = sp (nth j (lgx c) bzero) e.
+Proof.
+  intros Hj. unfold logical_errors. rewrite app_nth2 by (rewrite map_length; lia).
+  rewrite map_length. replace (length (lgz c) + j - length (lgz c))%nat with j by lia.
+  rewrite (nth_indep _ false (sp bzero e)) by now rewrite map_length.
+  apply (map_nth (fun l => sp l e)).
+Qed.
+
+(** the logical X on qubit i flags exactly bit i of the first (X) block; logical Z on qubit i flags
+    exactly bit i of the second (Z) block *)
+Theorem logical_errors_of_logical_x c : Valid c -> forall i j, (i < length (lgx c))%nat ->
+  (j < length (lgz c) + length (lgx c))%nat ->
+  nth j (logical_errors c (nth i (lgx c) bzero)) false = Nat.eqb j i.
+Proof.
+  intros V i j Hi Hj. pose proof (v_klen c V) as Hk.
+  destruct (Nat.lt_ge_cases j (length (lgz c))) as [Hlt|Hge].
+  - rewrite logical_errors_nth_x by assumption. rewrite sp_comm.
+    rewrite (v_xz c V i j) by lia. apply Nat.eqb_sym.
+  - replace j with (length (lgz c) + (j - length (lgz c)))%nat at 1 by lia.
+    rewrite logical_errors_nth_z by lia.
+    rewrite (v_xx c V); [|apply nth_In; lia|apply nth_In; lia].
+    symmetry. apply Nat.eqb_neq. lia.
+Qed.
+
+Theorem logical_errors_of_logical_z c : Valid c -> forall i j, (i < length (lgz c))%nat ->
+  (j < length (lgz c) + length (lgx c))%nat ->
+  nth j (logical_errors c (nth i (lgz c) bzero)) false = Nat.eqb j (length (lgz c) + i).
+Proof.
+  intros V i j Hi Hj. pose proof (v_klen c V) as Hk.
+  destruct (Nat.lt_ge_cases j (length (lgz c))) as [Hlt|Hge].
+  - rewrite logical_errors_nth_x by assumption.
+    rewrite (v_zz c V); [|apply nth_In; lia|apply nth_In; lia].
+    symmetry. apply Nat.eqb_neq. lia.
+  - replace j with (length (lgz c) + (j - length (lgz c)))%nat at 1 by lia.
+    rewrite logical_errors_nth_z by lia.
+    rewrite (v_xz c V (j - length (lgz c)) i) by lia.
+    destruct (Nat.eqb_spec (j - length (lgz c)) i); symmetry; [apply Nat.eqb_eq|apply Nat.eqb_neq]; lia.
+Qed.
+
+(** ** brute force (finite cross-check of the hypotheses of [success_iff_stabilizer]):
+    all operators on n qubits, the whole group generated by a list *)
+Fixpoint all_below (n : nat) : list N :=
+  match n with O => [0] | S m => let l := all_below m in l ++ map (fun v => N.lor v (N.shiftl 1 (N.of_nat m))) l end.
+Definition all_ops (n : nat) : list bsf := flat_map (fun x => map (fun z => B x z) (all_below n)) (all_below n).
+Fixpoint group_of (G : list bsf) : list bsf :=
+  match G with [] => [bzero] | g :: G' => let l := group_of G' in l ++ map (badd g) l end.
+Lemma group_of_span G v : In v (group_of G) -> span G v.
+Proof.
+  revert v; induction G as [|g G IH]; intros v Hv; cbn [group_of] in Hv.
+  - destruct Hv as [<-|[]]. constructor.
+  - apply in_app_iff in Hv. destruct Hv as [Hv|Hv].
+    + apply (span_mono G); [intros x Hx; now right|auto].
+    + apply in_map_iff in Hv. destruct Hv as [u [<- Hu]]. apply span_add; [now left|].
+      apply (span_mono G); [intros x Hx; now right|auto].
+Qed.
+Lemma span_group_of G v : span G v -> In v (group_of G).
+Proof.
+  assert (Hadd : forall G g u, In g G -> In u (group_of G) -> In (badd g u) (group_of G)).
+  { clear. induction G as [|g0 G IH]; intros g u Hg Hu; [destruct Hg|]. cbn [group_of] in *.
+    apply in_app_iff in Hu. destruct Hg as [->|Hg].
+    - destruct Hu as [Hu|Hu].
+      + apply in_app_iff; right. now apply in_map.
+      + apply in_map_iff in Hu. destruct Hu as [w [<- Hw]]. rewrite badd_cancel_l. apply in_app_iff; now left.
+    - destruct Hu as [Hu|Hu].
+      + apply in_app_iff; left. now apply IH.
+      + apply in_map_iff in Hu. destruct Hu as [w [<- Hw]]. apply in_app_iff; right.
+        rewrite badd_assoc, (badd_comm g g0), <- badd_assoc. apply in_map. now apply IH. }
+  induction 1 as [|r u Hr Hu IH].
+  - clear. induction G as [|g G IH]; cbn [group_of]; [now left|apply in_app_iff; now left].
+  - now apply Hadd.
+Qed.
+Definition memb (v : bsf) (l : list bsf) : bool := existsb (beqb v) l.
+Lemma memb_In v l : memb v l = true <-> In v l.
+Proof.
+  unfold memb. rewrite existsb_exists. split.
+  - intros [x [Hx E]]. apply beqb_eq in E. now subst.
+  - intros H. exists v. split; [assumption|now apply beqb_eq].
+Qed.
+(** [brute_success_ok c]: on every operator of n qubits, is_success agrees with membership in
+    the full stabilizer group (computed by exhaustive enumeration) *)
+Definition brute_success_ok (c : code) : bool :=
+  let grp := group_of (stabs c) in
+  forallb (fun e => Bool.eqb (is_success c e) (memb e grp)) (all_ops (nq c)).
+Definition success_set (c : code) : list bsf := filter (is_success c) (all_ops (nq c)).
+
+(** ** correspondence records (what the implementation reported for a residual error) *)
+Record obs := Obs { o_e : bsf; o_cs : bool; o_le : list bool; o_ile : bool; o_ok : bool }.
+Fixpoint lbeq (a b : list bool) : bool :=
+  match a, b with [] , [] => true | x :: a', y :: b' => Bool.eqb x y && lbeq a' b' | _, _ => false end.
+Definition check_obs (c : code) (o : obs) : bool :=
+  Bool.eqb (in_codespace c (o_e o)) (o_cs o) && lbeq (logical_errors c (o_e o)) (o_le o)
+  && Bool.eqb (is_logical_error c (o_e o)) (o_ile o) && Bool.eqb (is_success c (o_e o)) (o_ok o).
+
+Definition dec (n : nat) (v : N) : bsf := B (N.land v (N.ones (N.of_nat n))) (N.shiftr v (N.of_nat n)).
+Fixpoint strictly_increasing (l : list N) : bool :=
+  match l with x :: ((y :: _) as l') => (x <? y) && strictly_increasing l' | _ => true end.
+(** the implementation's complete list of operators it reports as successful (resp. in the code
+    space) over all 4^n operators equals the model's set: same elements, same count *)
+Definition brute_sets_ok (c : code) (cs ok : list N) (le_cs : list (list bool)) : bool :=
+  let n := nq c in
+  strictly_increasing cs && strictly_increasing ok
+  && forallb (fun v => v <? N.shiftl 1 (N.of_nat (2 * n))) (cs ++ ok)
+  && forallb (fun v => in_codespace c (dec n v)) cs
+  && forallb (fun v => is_success c (dec n v)) ok
+  && Nat.eqb (length (filter (in_codespace c) (all_ops n))) (length cs)
+  && Nat.eqb (length (filter (is_success c) (all_ops n))) (length ok)
+  && lbeq (map (fun p => lbeq (logical_errors c (dec n (fst p))) (snd p)) (combine cs le_cs)) (map (fun _ => true) cs)
+  && Nat.eqb (length cs) (length le_cs).
